@@ -226,7 +226,10 @@ def mk_sig(interp, ctx, side, shape, nfuncs=1, annotations=True, tracked=True):
         pv = s._d.get('_parameters')
         if not (isinstance(pv, ParamsView) and len(pv.plist) == len(plist) and all(a is b for a, b in zip(pv.plist, plist)) and s._d.get('sources') is src):
             s = None
-    except (PyExc, EngineLimit):
+    except (PyExc, EngineLimit) as _e:
+        import os as _os
+        if _os.environ.get('VF_DEBUG'):
+            print('mk_sig: constructor fallback:', repr(_e), getattr(_e, 'eargs', None))
         s = None
     if s is None:
         s = Inst(US)
